@@ -702,6 +702,9 @@ def run(tier, seed, rep, only=None):
     ncases = sum(len(it[2]) for it in items if it[0] != "history")
     pmap(work, items, rep)
     collapse(rep, PID)
+    ordered = sorted(rep.outcomes.items())  # merge order of the workers must not show in the evidence
+    rep.outcomes.clear()
+    rep.outcomes.update(dict(ordered))
     del rep.samples[:]  # written-out cases chosen here, not by whichever worker finishes first
     for it in items:
         if it[0] == "history":
